@@ -4,7 +4,7 @@ use dicom_core::PrimitiveValue;
 use serde::Serialize;
 use serde::ser::SerializeSeq;
 
-use crate::{INFINITY, NAN, NEG_INFINITY};
+use crate::{DicomJson, INFINITY, NAN, NEG_INFINITY};
 
 /// Wrapper type for [primitive values][1]
 /// which should always be encoded as strings.
@@ -31,6 +31,36 @@ impl Serialize for AsStrings<'_> {
     {
         let strings = self.0.to_multi_str();
         serializer.collect_seq(&*strings)
+    }
+}
+
+/// Wrapper type for [primitive values][1]
+/// which should be encoded as attribute tags:
+/// strings of eight hexadecimal digits (`"GGGGEEEE"`),
+/// as prescribed for the value representation AT.
+///
+/// [1]: dicom_core::PrimitiveValue
+#[derive(Debug, Clone)]
+pub struct AsTags<'a>(&'a PrimitiveValue);
+
+impl<'a> From<&'a PrimitiveValue> for AsTags<'a> {
+    fn from(value: &'a PrimitiveValue) -> Self {
+        AsTags(value)
+    }
+}
+
+impl Serialize for AsTags<'_> {
+    fn serialize<S>(&self, serializer: S) -> Result<S::Ok, S::Error>
+    where
+        S: serde::Serializer,
+    {
+        match self.0 {
+            PrimitiveValue::Tags(tags) => {
+                serializer.collect_seq(tags.iter().map(|tag| DicomJson::from(*tag)))
+            }
+            // not held as tags: fall back to the textual form of the value
+            v => AsStrings::from(v).serialize(serializer),
+        }
     }
 }
 
